@@ -25,6 +25,7 @@ REPO = "/repo"
 REPLAYS = os.path.join(VERIF, "replays")
 EVIDENCE = os.path.join(VERIF, "evidence")
 NCPU = os.cpu_count() or 4
+TLA_CP = "/opt/veriftools/tla/tla2tools.jar:/opt/veriftools/tla/CommunityModules-deps.jar"      # what `tlc` uses
 
 import pdl  # noqa: E402
 import kit  # noqa: E402
@@ -192,8 +193,11 @@ def tlc(module, cfg, env, workers=None, tag="tlc", timeout=3600, simulate=None, 
     out = os.path.join(meta, "out.txt")
     e = dict(os.environ)
     e.update(env)
+    # -Xss on the command line, not in JAVA_TOOL_OPTIONS: the launcher sizes the *main* thread (which evaluates the
+    # initial states - all of the work of the trace specifications) from its own arguments only
     e["JAVA_TOOL_OPTIONS"] = "-Xss1g " + env.get("JAVA_TOOL_OPTIONS", "")
-    cmd = ["tlc", "-workers", str(workers), "-metadir", os.path.join(meta, "states"), "-cleanup",
+    cmd = ["java", "-Xss1g", "-XX:+UseParallelGC", "-cp", TLA_CP, "tlc2.TLC",
+           "-workers", str(workers), "-metadir", os.path.join(meta, "states"), "-cleanup",
            "-noGenerateSpecTE", "-config", os.path.join(SPEC, cfg)]
     if coverage:
         cmd += ["-coverage", "1"]
@@ -392,10 +396,10 @@ def builder_run(seed, num, depth=160, consts=None):
     return out
 
 
-def builder_descs(tier, seed, backend="rust"):
+def builder_descs(tier, seed, backend="rust", n=None):
     """descriptions written by the builder machine that the specification accepts and places inside the
     backend's supported class; quick: a fixed batch, thorough: a larger one plus a batch drawn from VERIF_SEED"""
-    n = int(os.environ.get("VERIF_NGEN", "64" if tier == "quick" else "600"))
+    n = n or int(os.environ.get("VERIF_NGEN", "64" if tier == "quick" else "600"))
     if n <= 0:
         return []
     recs = builder_run(BUILD_SEED, n)
@@ -403,7 +407,7 @@ def builder_descs(tier, seed, backend="rust"):
         recs = recs + builder_run(seed, n)
     out, names = [], set()
     for r in recs:
-        if not (r["accepted"] and r.get(backend)) or r["name"] in names:
+        if not (r["accepted"] and (backend is None or r.get(backend))) or r["name"] in names:
             continue
         if not any(x["fields"] for x in r["d"]["decls"] if x["kind"] in ("packet", "struct")):
             continue
@@ -697,7 +701,8 @@ class Ctx:
         return self.drv
 
     def cleanup(self):
-        shutil.rmtree(self.tmp, ignore_errors=True)
+        if not os.environ.get("VERIF_KEEP"):
+            shutil.rmtree(self.tmp, ignore_errors=True)
 
 
 def run_jobs(ctx, units, jobs, rep, tag="vec"):
@@ -2199,14 +2204,24 @@ def check_c07(ctx):
 # ------------------------------------------------------------------------------ C16 static size annotations
 def check_c16(ctx):
     rep = Report("C16", ctx.tier, ctx.seed)
-    units = make_units(kit.build(ctx.tier) + kit.schema_descs(ctx.tier), endians=("little",))
+    # the kit, and shapes written by the builder machine (no target compilation needed: several hundred / thousand)
+    bdescs = builder_descs(ctx.tier, ctx.seed, None, n=400 if ctx.tier == "quick" else 4000)
+    nval = 48 if ctx.tier == "quick" else 400
+    with_values = {d["name"] for d in bdescs[:nval]}
+    units = make_units(kit.build(ctx.tier) + kit.schema_descs(ctx.tier) + bdescs, endians=("little",))
     compile_units(ctx.driver(), units, ["analyze", "schema"])
     acc = [u for u in units if u.status == "accepted"]
+    for u in units:
+        if u.status != "accepted" and u.desc["name"].startswith("g_"):
+            rep.violation("C16|analyzer|%s|builder_description_not_accepted" % u.name,
+                          {"desc": u.desc, "pdl": u.src, "observed": u.resp.get("analyze")})
     jobs = []
     pos = {u.name: k + 1 for k, u in enumerate(units)}
     for u in acc:
         jobs.append(dict(d=pos[u.name], type="", anc="", mode="schema", n=0))
         jobs.append(dict(d=pos[u.name], type="", anc="", mode="info", n=0))
+        if u.desc["name"].startswith("g_") and u.desc["name"] not in with_values:
+            continue
         for t in u.types():
             # the model-level soundness theorem is checked on every value vector of every type
             jobs.append(dict(d=pos[u.name], type=t, anc="", mode="enc", n=0))
@@ -2275,9 +2290,23 @@ BIGNUMS = ["0", "1", "63", "64", "65", "255", "256", "65535", "4294967295", "429
            "0x10000000000000000", "99999999999999999999999999", "0X1F", "00", "0x"]
 
 
+def hex_variant(rng, src, p=0.5):
+    """the same text with integer literals rewritten in hexadecimal (0x / 0X, either case), each with probability p"""
+    import re
+
+    def f(m):
+        if rng.random() >= p:
+            return m.group()
+        n = int(m.group())
+        return rng.choice(["0x%x", "0x%X", "0X%x", "0X%X"]) % n
+    return re.sub(r"(?<![A-Za-z_0-9])[0-9]+(?![A-Za-z_0-9])", f, src)
+
+
 def mutate_text(rng, src):
     import re
-    k = rng.randrange(12)
+    k = rng.randrange(14)
+    if k >= 12:
+        return hex_variant(rng, src)
     if k == 0:
         i = rng.randrange(len(src) + 1)
         return src[:i]
@@ -2356,7 +2385,8 @@ def norm_msg(m):
     import re
     m = re.sub(r"`[^`]*`", "`X`", m or "")
     m = re.sub(r"\"[^\"]*\"", '"X"', m)
-    return re.sub(r"[0-9]+", "N", m)[:90]
+    m, _, at = m.partition(" @")          # the driver appends the panicking source file
+    return re.sub(r"[0-9]+", "N", m)[:90] + ((" @" + at) if at else "")
 
 
 def check_c10(ctx):
@@ -2463,9 +2493,46 @@ def check_c10(ctx):
         for _ in range(rng.choice([1, 1, 1, 2, 3])):
             t = mutate_text(rng, t) or t
         texts.append(t)
+    # every description once more with all its integer literals in hexadecimal
+    texts += [hex_variant(rng, u.src, 1.0) for u in units]
     reqs = [dict(rid=i, name="mut%d.pdl" % i, src=t, want=["parse", "analyze", "json"]) for i, t in enumerate(texts)]
     mres = run_driver(ctx.driver(), reqs, tag="mut")
+    # texts the analyzer accepts are handed to every backend whose supported class they fall into (the class is
+    # decided by the specification on the description recovered from the analyzed AST)
+    munits, mof = [], {}
+    for i, t in enumerate(texts):
+        a = mres.get(i, {}).get("analyze", {}) if isinstance(mres.get(i), dict) else {}
+        if "ok" not in a:
+            continue
+        try:
+            d = pdl.ast_to_desc(a["ok"])
+        except Exception:  # noqa
+            rep.notes["accepted_texts_unmappable"] = rep.notes.get("accepted_texts_unmappable", 0) + 1
+            continue
+        nums = [x.get("width", 0) for x in d["decls"]] + [f.get(k, 0) for x in d["decls"] for f in x["fields"] for k in ("width", "count", "mod", "size", "condv")]
+        if any(isinstance(n, int) and abs(n) > 4096 for n in nums) or len(json.dumps(d)) > 60000:
+            rep.notes["accepted_texts_outside_model_range"] = rep.notes.get("accepted_texts_outside_model_range", 0) + 1
+            continue
+        d["name"] = "mut%d" % i
+        d["endian"] = d.get("endian") or "little"
+        mu = Unit(len(munits), d)
+        mu.src = t
+        mof[i] = mu
+        munits.append(mu)
+    minfo = {}
+    if munits:
+        mjobs = [dict(d=k + 1, type="", anc="", mode="info", n=0) for k in range(len(munits))]
+        _, minfo = run_jobs(ctx, munits, mjobs, rep, tag="c10minfo")
+    greqs = []
+    for i, mu in mof.items():
+        inf = minfo.get(mu.name, {})
+        want = [b for b, flag in (("rust", "rust"), ("python", "py"), ("cxx", "cxx"), ("java", "java")) if inf.get(flag)]
+        mu.want = want
+        if want:
+            greqs.append(dict(rid=i, name="mut%d.pdl" % i, src=texts[i], want=["parse", "analyze"] + want))
+    gres = run_driver(ctx.driver(), greqs, tag="mutgen") if greqs else {}
     nacc = 0
+    ngen = 0
     for i, t in enumerate(texts):
         r = mres.get(i, {})
         ev = []
@@ -2486,6 +2553,21 @@ def check_c10(ctx):
                 if ao == "ok":
                     nacc += 1
                 ev.append(dict(ev="analyze", b="", outcome=ao))
+                if ao == "ok" and i in mof and mof[i].want:
+                    g = gres.get(i, {})
+                    r = dict(r)
+                    for b in mof[i].want:
+                        go = outcome_of(g.get(b)) if isinstance(g, dict) and "timeout" not in g and "abnormal" not in g else "abort"
+                        ev.append(dict(ev="generate", b=b, outcome=go))
+                        ngen += 1
+                        if go != "ok":
+                            r["generate_" + b] = g.get(b) if isinstance(g, dict) else g
+                            continue
+                        if b == "python":
+                            e = py_compiles(g[b]["ok"], "mut%d.py" % i)
+                            ev.append(dict(ev="compile", b=b, outcome="ok" if e is None else "error"))
+                            if e:
+                                r["compile_python"] = e
         rid = len(runs)
         runs.append(dict(rid=rid, events=ev))
         where[rid] = ("text", t, r)
@@ -2513,13 +2595,16 @@ def check_c10(ctx):
         else:
             dd = detail.get(bad.get("ev")) if isinstance(detail, dict) else None
             if bad.get("ev") == "generate":
-                dd = detail.get("json")
-            msg = dd.get("panic", "") if isinstance(dd, dict) else ""
+                dd = detail.get("json") if bad.get("b") == "json" else detail.get("generate_" + bad.get("b", ""))
+            if bad.get("ev") == "compile":
+                dd = detail.get("compile_" + bad.get("b", ""))
+            msg = dd.get("panic", "") if isinstance(dd, dict) else (dd if isinstance(dd, str) else "")
             fp = "C10|%s|text|%s|%s" % (stage, bad.get("outcome"), norm_msg(msg))
             rep.violation(fp, {"pdl": what, "events": run["events"], "observed": detail})
     rep.notes["descriptions"] = len(units)
     rep.notes["mutated_texts"] = nmut
     rep.notes["mutated_texts_accepted_by_analyzer"] = nacc
+    rep.notes["mutated_texts_backend_generations"] = ngen
     rep.assumptions += ["'compiles' is demanded only inside the backend's Supported predicate (spec/PdlSupport.tla)",
                         "panics, aborts and timeouts are observed by the driver (catch_unwind, watchdog, fresh process per batch); "
                         "the specification's role is to classify the recorded run (PdlCompile has no action for them)"]
@@ -3123,6 +3208,11 @@ def main():
     r = sub.add_parser("replay")
     r.add_argument("path")
     a = ap.parse_args()
+    # one check at a time: the checks share build directories under .work
+    import fcntl
+    os.makedirs(WORK, exist_ok=True)
+    lockf = open(os.path.join(WORK, ".lock"), "w")
+    fcntl.flock(lockf, fcntl.LOCK_EX)
     if a.cmd == "setup":
         os.makedirs(WORK, exist_ok=True)
         sh(["tlc", "-h"], check=False)
